@@ -51,6 +51,7 @@ func checkC06(c *Ctx) {
 	// ---- inventory: no reflection / unsafe / linkname in the module (call-graph soundness)
 	checkBufferReread(c)
 	checkStaleTriple(c, "C06.stale-cursor")
+	checkRound5Small(c, "C06")
 	r.Rule("C06.no-reflection", "K6", "no package of the module imports reflect or unsafe (call-graph and write inventories are sound)", 1)
 	{
 		bad := []string{}
